@@ -1479,7 +1479,44 @@ def check_c10(pid, tier, build, props):
             violations.append(dict(ident, witness={"reason": "census mismatch: " + ", ".join(
                 w for w, v in zip(what, c or [0, 0, 0]) if v != 1), "code": o.get("code", "")[:800]}))
     nth = len(props["theorems"])
+    # the model of the code generator (Back.v): same tree node for node (or the same kind of refusal),
+    # and the census of the tree taken inside Coq
+    from . import backend, par
+    bitems = backend.items_for(tier, common.seed())
+    bout, berr = par.run(bitems, backend.export_item)
+    be = {"inputs": len(bitems), "same_tree": 0, "same_refusal": 0, "skipped": {}, "tree_differs": 0,
+          "census_in_coq_ok": 0, "by_kind": {}}
+    if berr:
+        problems.append("code-generator correspondence driver: %r" % berr[:1])
+    for item, meta, r in bout:
+        ident = {"graph": item[1]} if item[0] == "graph" else {"source": item[1]}
+        if meta and "harness_error" in meta:
+            problems.append("code-generator correspondence harness: %r" % (meta,))
+        elif meta and "skipped" in meta:
+            be["skipped"][meta["skipped"]] = be["skipped"].get(meta["skipped"], 0) + 1
+        elif (meta and "model_mismatch" in meta) or r is None or len(r) != 5 or r[0] != 1 or r[1] != 1:
+            be["tree_differs"] += 1
+            if be["tree_differs"] <= 2:
+                problems.append("correspondence implementation = Model/Back.v broken on %r: %s"
+                                % (ident, (meta or {}).get("model_mismatch", "answers %r" % (r,))))
+        else:
+            be["by_kind"][item[0]] = be["by_kind"].get(item[0], 0) + 1
+            if meta.get("status"):
+                be["same_refusal"] += 1
+            else:
+                be["same_tree"] += 1
+                if r[2:] == [1, 1, 1]:
+                    be["census_in_coq_ok"] += 1
+                elif len(violations) < 6:
+                    what = ["statements of original blocks", "control-variable assignments", "tests as if-conditions"]
+                    violations.append(dict(ident, witness={"reason": "census of the generated tree (taken in Coq on the "
+                                           "model's tree, which equals the implementation's): " + ", ".join(
+                                               w for w, v in zip(what, r[2:]) if v != 1)}))
+    be_ok = be["tree_differs"] == 0 and be["same_tree"] > 0 and not berr
     coverage = {
+        "code_generator_model": dict(be, holds=be_ok, what="Back.transform(hierarchy) = tree built by "
+                                     "SCFG2ASTTransformer, node for node, or the same kind of refusal; census of the "
+                                     "tree by Back.census_* against the hierarchy, all inside the extracted Coq code"),
         "programs": n,
         "disagreements_checked": len(violations),
         "samples": [{"source": o["src"], "regenerated": o.get("code", "")[:400]} for o in allres
@@ -1487,9 +1524,9 @@ def check_c10(pid, tier, build, props):
         "census_accepted": ok,
         "items_counted": {"statements": sizes[0], "assignments": sizes[1], "tests": sizes[2]},
         "theorems": props["theorems"],
-        "obligations": nth, "discharged": nth if props["ok"] else 0,
+        "obligations": nth + 1, "discharged": (nth if props["ok"] else 0) + (1 if be_ok else 0),
         "checker_cmd": "coqc Props/C10.v; build/extract/vchk (RunSrc.run_c10) on the identities of statements in the "
-                       "hierarchy vs the regenerated tree",
+                       "hierarchy vs the regenerated tree; vchk (BackRun.run_back) model tree = implementation tree + census",
         "trusted_base": ["Coq kernel", "extraction, ocaml/driver.ml",
                          "harness/vh/srcpipe.py census_rows: identification of statements by object identity"],
         "explanation": "Per regenerated tree (every accepted generated program and every accepted graph of AST blocks): "
@@ -1497,10 +1534,14 @@ def check_c10(pid, tier, build, props):
                        "used as if-conditions equals what the restructured hierarchy holds - decided by the verified "
                        "checker census_check (sound: equal multisets). A static census: covers code on paths no input "
                        "exercises. Also checked by the harness: the output compiles; new identifiers match "
-                       "^__scfg_.*__$. Not proved: a universal census theorem over a model of SCFG2AST.",
+                       "^__scfg_.*__$. Added: an executable model of SCFG2ASTTransformer (Model/Back.v: lookup through "
+                       "the region stack, loop-continue counter, if cascades, region views) whose tree equals the "
+                       "implementation's node for node on every input of this run, refusals included; the census is "
+                       "then taken in Coq on that tree. Not proved: a universal census theorem over that model.",
     }
     return {"coverage": coverage, "violations": violations, "problems": problems, "level": "translation_validation",
-            "wall_s": t.s(), "broken_name": "census_check (Props/C10.v) on regenerated trees"}
+            "wall_s": t.s(), "broken_name": "census_check (Props/C10.v) on regenerated trees / correspondence implementation = "
+                                                           "Model/Back.v (BackRun.run_back)"}
 
 
 REGISTRY["C07"] = check_c07
